@@ -20,7 +20,8 @@ comes from the hypothesis strategy and is reproducible from the hypothesis seed)
 * ``mutation(base)`` / ``mutate(rnd, base)``: one edit of a text: insert/delete/replace one
   character of ``ALPHABET`` (biased to delimiter boundaries), or a structural edit (drop the
   version, drop/add the operator, duplicate or swap the slot/USE block, append a version-like tail
-  to the package name, newline, blocker, USE/slot/revision edits).  Value: ``(text, kind)``.
+  to the package name, newline, blocker, USE/slot/revision edits, and ``slot_structure_edit``:
+  extra ``/part``s, empty parts, ``/`` at either end, slot operator in the middle).  Value: ``(text, kind)``.
 * ``atom_case()`` / ``build_atom_case(rnd)``: a valid atom, 60% of the time followed by 1-2
   mutations; value ``{"s", "parent", "mut", "fields"|None, "features"|None, "parent_features"|None}``.
 * ``fuzz_text()`` / ``build_fuzz_text(rnd)``: raw text over ``ALPHABET`` and splices of atom
@@ -265,7 +266,7 @@ def assemble(f) -> str:
 # ---- mutations -----------------------------------------------------------------
 _TAILS = ["-1", "-1-r1", "-r1", "-1a", "-", "-1_p", "-1_", "-1A", "-1.", "-01", "-1_alpha1-r01", "-r", "-1-r", "-1_p1_p", "-1.2.3", "-9f"]
 _STRUCT = ("drop_version", "drop_op", "add_op", "dup_slot", "dup_use", "swap_slot_use", "pkg_tail", "newline", "bang",
-           "use_edit", "slot_edit", "repo_edit", "star", "rev_edit", "space")
+           "use_edit", "slot_edit", "slot_struct", "slot_struct", "repo_edit", "star", "rev_edit", "space")
 _USE_EDITS = ["{},", ",{}", "{},,b", "!{}", "-{}", "{}?", "{}=", "{}(+)", "{}(-)", "{}()", "{}(+)(+)", "--{}", "!-{}?", "{}?=", "", "-",
               "!", "{}(+", "(+)", "{}(@)", "@{}", "{}(+-)", "-{}(+)?", "_{}", "+{}", "{}.x", "!!{}?", "{}??", "{}=?", "-(+)"]
 _SLOT_EDITS = [":", ":-1", ":.1", ":+1", ":_1", ":1/", ":/1", ":1/2/3", ":1==", ":=1", ":*1", ":1*", ":**", ":1=/2", ":1,2", ":1@",
@@ -305,6 +306,58 @@ def _split_blocks(s):
     slot = rest[c:] if c != -1 else ""
     head = rest[:c] if c != -1 else rest
     return head, slot, use
+
+
+_SLOT_PIECES = ["0", "1", "2", "1.2", "a", "s_1", "+1", "-1", ".1", ""]
+
+
+def slot_structure_edit(rnd, block: str) -> str:
+    """structural edit of a slot block (':slot[/sub][=]' optionally followed by '::repo'; '' = none):
+    extra '/part' (one or several), empty part, '/' at either end, operator moved into the middle or
+    doubled, '*' attached to a name -- composed from the block's own pieces, not a fixed list"""
+    i = block.find("::")
+    dep, repo = (block, "") if i == -1 else (block[:i], block[i:])
+    if not dep.startswith(":") or len(dep) < 2:
+        dep = ":" + rnd.choice(["0", "0/1", "0=", "0/1=", "1.2/a"])
+    body = dep[1:]
+    op = ""
+    if body.endswith("=") and len(body) > 1:
+        body, op = body[:-1], "="
+    pieces = body.split("/")
+    k = rnd.randrange(9)
+    if k == 0:      # one more part
+        pieces.append(rnd.choice(_SLOT_PIECES[:6]))
+    elif k == 1:    # several more parts
+        pieces += [rnd.choice(_SLOT_PIECES[:6]) for _ in range(rnd.randint(2, 3))]
+    elif k == 2:    # empty / badly starting part somewhere
+        pieces.insert(rnd.randint(0, len(pieces)), rnd.choice(_SLOT_PIECES[6:]))
+    elif k == 3:    # '/' at either end
+        pieces = ([""] + pieces) if rnd.random() < 0.5 else (pieces + [""])
+    elif k == 4:    # operator in the middle
+        j = rnd.randrange(len(pieces))
+        pieces[j] = pieces[j] + rnd.choice(["=", "*"])
+        if rnd.random() < 0.5:
+            op = ""
+    elif k == 5:    # operator first / doubled / both operators
+        op = rnd.choice(["==", "=*", "*", "*="]) if rnd.random() < 0.6 else op
+        if rnd.random() < 0.5:
+            pieces[0] = rnd.choice(["=", "*"]) + pieces[0]
+    elif k == 6:    # split a part in two ('12' -> '1/2'): the edit a single inserted '/' makes
+        j = rnd.randrange(len(pieces))
+        if len(pieces[j]) >= 2:
+            m = rnd.randint(1, len(pieces[j]) - 1)
+            pieces[j:j + 1] = [pieces[j][:m], pieces[j][m:]]
+        else:
+            pieces.append(pieces[j])
+    elif k == 7:    # drop a part / keep only the sub-slot
+        if len(pieces) > 1:
+            pieces.pop(rnd.randrange(len(pieces)))
+        else:
+            pieces = ["", pieces[0]]
+    else:           # bare operator followed by a sub-slot
+        pieces = [rnd.choice(["=", "*"])] + pieces[-1:]
+        op = ""
+    return ":" + "/".join(pieces) + op + repo
 
 
 def mutate(rnd, base: str):
@@ -359,6 +412,8 @@ def mutate(rnd, base: str):
         use = "[" + rnd.choice(_USE_EDITS).format(inner) + "]"
     elif kind == "slot_edit":
         slot = rnd.choice(_SLOT_EDITS)
+    elif kind == "slot_struct":
+        slot = slot_structure_edit(rnd, slot)
     elif kind == "repo_edit":
         i = slot.find("::")
         slot = (slot[:i] if i != -1 else slot) + rnd.choice(_REPO_EDITS)
